@@ -48,18 +48,18 @@ type Env struct {
 	S *Sched
 	R *Rand
 
-	mu      sync.Mutex
-	viol    *Violation
-	probes  map[string]int
-	faults  map[string]int
-	events  []string
-	ehash   uint64
-	wg      sync.WaitGroup
-	t0      time.Time
-	infra   string
-	limit   *time.Timer
-	cleanup []func()
-	panics  []string
+	mu             sync.Mutex
+	viol           *Violation
+	probes         map[string]int
+	faults         map[string]int
+	events         []string
+	ehash          uint64
+	wg             sync.WaitGroup
+	t0             time.Time
+	infra          string
+	limit          *time.Timer
+	cleanup        []func()
+	panics         []string
 	internalPanics []string
 }
 
